@@ -129,13 +129,29 @@ def clone_value(v, memo):
     if isinstance(v, Ref):
         return Ref(clone_value(v.cell, memo))
     if isinstance(v, Agg):
-        return Agg(v.kind, [clone_value(c, memo) for c in v.fields])
+        key = ("agg", id(v))
+        if key in memo:
+            return memo[key]
+        a = Agg(v.kind, [])
+        memo[key] = a
+        a.fields = [clone_value(c, memo) for c in v.fields]
+        return a
     if isinstance(v, Opt):
         return Opt(v.cond, clone_value(v.payload, memo))
     if isinstance(v, Closure):
         return Closure(v.fn, clone_value(v.env, memo))
     if isinstance(v, Opaque):
-        return Opaque(v.what, clone_value(v.data, memo)) if isinstance(v.data, (Cell, Ref, Agg)) else v
+        return Opaque(v.what, clone_value(v.data, memo)) if isinstance(v.data, (Cell, Ref, Agg, tuple, list)) else v
+    if isinstance(v, tuple):
+        return tuple(clone_value(x, memo) for x in v)
+    if isinstance(v, list):
+        return [clone_value(x, memo) for x in v]
+    if isinstance(v, EnumV):
+        return EnumV(v.name, v.discr, [(n, [clone_value(x, memo) for x in pl]) for (n, pl) in v.variants])
+    if isinstance(v, ListV):
+        return ListV([clone_value(x, memo) for x in v.items])
+    if isinstance(v, ListIter):
+        return ListIter([clone_value(x, memo) for x in v.items], v.idx)
     return v    # Z, MapV, VecV, IterV are immutable records over z3 terms
 
 
@@ -153,7 +169,7 @@ class State:
         memo = {}
         s.roots = {k: clone_value(c, memo) for k, c in self.roots.items()}
         s.frames = [{k: (c if k == "__fn" else clone_value(c, memo)) for k, c in fr.items()} for fr in self.frames]
-        s.events = [clone_value(e, memo) if isinstance(e, (Cell, Ref, Agg)) else e for e in self.events]
+        s.events = [clone_value(e, memo) for e in self.events]
         s.depth = self.depth
         return s
 
@@ -372,10 +388,21 @@ class Engine:
         if m:
             dst.v = self.models.cast(self.operand(st, frame, m.group(1)), m.group(2), m.group(3))
             return
+        m = re.match(r"^(Result|Option|std::result::Result|std::option::Option)::<.*>::(Ok|Err|Some|None)(?:\((.*)\))?$", rhs)
+        if m:
+            payload = self.operand(st, frame, m.group(3)) if m.group(3) else None
+            if m.group(2) in ("Some", "None"):
+                dst.v = Opt(z3.BoolVal(m.group(2) == "Some"), payload)
+            else:
+                dst.v = Agg("variant:%d:%s" % (0 if m.group(2) == "Ok" else 1, m.group(2)), [Cell(payload)])
+            return
         m = re.match(r"^(\w[\w:]*)::(\w+)\((.*)\)$", rhs)
         if m and not rhs.startswith(("copy", "move", "const")):
             # tuple-like enum/struct constructor written as a call-looking aggregate, e.g. Option::<T>::Some(x)
             raise Unsupported("aggregate: " + rhs)
+        if re.fullmatch(r"[A-Za-z_][\w:]*::[A-Z]\w*", rhs):
+            dst.v = Opaque("unit-variant", rhs)      # e.g. error::Error::IssuerNotCrlSigner
+            return
         dst.v = self.operand(st, frame, rhs)
 
     def find_closure(self, span):
